@@ -372,7 +372,8 @@ fn history_case(seed: u64, idx: usize, bin: &str, rt: &std::sync::Arc<tokio::run
                         Err(e) => rpc_err!(e),
                     }
                 } else {
-                    let ids = vec![id, id, *rng.pick(&universe)];
+                    let mut ids = vec![id, id, *rng.pick(&universe), id];
+                    rng.shuffle(&mut ids);
                     history.push(json!({"step":step,"t":own,"op":"batch_delete_ids","ns":ns,"ids":ids}));
                     match ts[ti].cl.batch_delete_ids(ids.clone(), &ns) {
                         Ok(r) => {
